@@ -111,21 +111,32 @@ def well_typed(t, logic=False):
     return all(well_typed(k, lg) for k in kids)
 
 
-def operand_models(tier, seed, meta):
+def operand_models(tier, seed, meta, assoc_all=False):
     """Models around the expression trees of ExprGen (every operator over every pair of operand
     kinds: handle / integer / float / Boolean literal / compound, both orders): the tree as the
     objective, as one side of a constraint, or (logic trees) as an assertion."""
     out = []
-    for fam, nquick in (("d1", 500), ("d2num", 500), ("d2log", 300)):
+    for fam, nquick in (("d1", 500), ("d2num", 500), ("d2log", 300), ("assoc", 500)):
         cs, g, d = core.gen_cases(rewrite.SPEC_DIR, "ExprGen.tla", f"Gen_{fam}.cfg", "ex" + fam, workers=8)
         meta["operands:" + fam] = {"cases": len(cs), "gen_states": d, "gen_transitions": g}
-        if tier == "quick":
+        if tier == "quick" and fam == "assoc" and assoc_all:
+            cs = list(enumerate(cs))
+        elif tier == "quick" and fam == "assoc":
+            # every (grouping, operator, operator) at least three times: the leaves vary with the seed
+            groups = {}
+            for i, c in enumerate(cs):
+                t = c["tree"]
+                left = t["a"].get("op") not in ("var", "num")
+                inner = t["a"] if left else t["b"]
+                groups.setdefault((left, t["op"], inner["op"]), []).append((i, c))
+            cs = sorted(sum(([g[(seed + j * 3) % len(g)] for j in range(3)] for g in groups.values()), []), key=lambda ic: ic[0])
+        elif tier == "quick":
             k = max(1, len(cs) // nquick)
             cs = [(i, c) for i, c in enumerate(cs)][seed % k::k]
         else:
             cs = list(enumerate(cs))
         skipped = 0
-        for i, c in cs:
+        for pos, (i, c) in enumerate(cs):
             t = c["tree"]
             if not well_typed(t):
                 skipped += 1
@@ -142,13 +153,17 @@ def operand_models(tier, seed, meta):
             else:
                 m = {"sense": "min", "obj": {"op": "sub", "a": {"op": "var", "name": "y"}, "b": {"op": "var", "name": "p"}},
                      "cons": [{"lhs": _num(1), "cmp": "le", "rhs": t, "assert": False, "name": ""}, xy]}
-            if fam == "d2log" and i % 3 == 0 and t["op"] in LOGIC_OPS:
+            if fam in ("d2log", "assoc") and i % 3 != 1 and t["op"] in LOGIC_OPS:
                 a = {"lhs": t, "cmp": "eq", "rhs": _num(1), "assert": True, "name": ""}
                 if mode >= 2:
                     m["cons"][0] = a
                 else:
                     m["cons"].append(a)
-                    m["obj"] = {"op": "add", "a": {"op": "var", "name": "x"}, "b": {"op": "var", "name": "q"}}
+                # an objective over the Booleans, in one of four directions, so that the optimum depends
+                # on which assignments the assertion admits
+                pv, qv = {"op": "var", "name": "p"}, {"op": "var", "name": "q"}
+                sense, op = [("min", "add"), ("max", "add"), ("min", "sub"), ("max", "sub")][(pos + seed) % 4]
+                m["sense"], m["obj"] = sense, {"op": op, "a": pv, "b": qv}
             used = set()
             _vars(m["obj"], used)
             for c_ in m["cons"]:
@@ -157,6 +172,17 @@ def operand_models(tier, seed, meta):
             m["dom"] = [copy.deepcopy(d_) for d_ in OPD_DOM if d_["name"] in used]
             m["id"] = f"O{fam}_{i}"
             out.append(m)
+            if fam == "assoc" and assoc_all and m["cons"] and any(c_.get("assert") for c_ in m["cons"]):
+                # the grouping of a chain decides which assignments it admits: judge it under every direction
+                # of the Boolean objective, not only the one chosen above
+                for vi, (sense, op) in enumerate([("min", "add"), ("max", "add"), ("min", "sub"), ("max", "sub")]):
+                    if (sense, op) != (m["sense"], m["obj"].get("op")):
+                        m2 = copy.deepcopy(m)
+                        m2["sense"], m2["obj"] = sense, {"op": op, "a": {"op": "var", "name": "p"}, "b": {"op": "var", "name": "q"}}
+                        names = {"p", "q"} | used
+                        m2["dom"] = [copy.deepcopy(d_) for d_ in OPD_DOM if d_["name"] in names]
+                        m2["id"] = f"O{fam}_{i}v{vi}"
+                        out.append(m2)
         meta["operands:" + fam]["ill_typed_left_out"] = skipped
     return out
 
